@@ -14,7 +14,7 @@ CONSTANTS
   Users = {"lp1", "lp2"}
   Traders = {"t1"}
   Ranges <- MCRanges
-  LiqUnits = {640, 1280}
+  LiqUnits = {64, 640}
   Amounts = {7, 100}
   StartGrowth <- MCStartGrowth
   Limits <- MCLimits
